@@ -178,8 +178,12 @@ impl Tunnel {
                         return;
                     }
                     (Err(e), ..) => {
+                        // an authorization header which cannot be interpreted (another scheme,
+                        // malformed value) does not authenticate the client
                         log_id!(debug, request_id, "Failed to get auth info: {}", e);
-                        request.fail_request(ConnectionError::Io(e));
+                        request.fail_request(ConnectionError::Authentication(
+                            "Unexpected authorization header".to_string(),
+                        ));
                         return;
                     }
                 };
